@@ -456,6 +456,27 @@ def exec_type(t, v, prep, rng, do_set=True):
         run_calls("after-growth")
     except BaseException as e:  # noqa
         res["errors"].append("growth: " + repr(e)[:200])
+    # references re-bound to a NEW target that took the freed place of the old one (same type, another length):
+    # whatever a handle remembers about a referent must not survive
+    try:
+        rebound = 0
+        if t["k"] == "struct":
+            for fname, ft in t["fields"]:
+                if ft["k"] == "ref" and ft["target"]["k"] == "array" and ft["target"]["shape"] == [None] and ft["target"]["item"]["k"] == "scalar":
+                    tgt = getattr(obj, fname)
+                    if tgt is None or tgt._buffer is not b: continue
+                    n_old = len(tgt)
+                    TT = X.build(ft["target"])
+                    b.free(int(tgt._offset), int(tgt._size))
+                    newt = TT(n_old - 1 if n_old > 1 else 2, _buffer=b)
+                    for i in range(len(newt)): newt[i] = i + 3
+                    setattr(obj, fname, newt)
+                    rebound += 1
+        if rebound:
+            res["rebound"] = rebound
+            run_calls("after-rebind")
+    except BaseException as e:  # noqa
+        res["errors"].append("rebind: " + repr(e)[:200])
     # the whole object must still read as a consistent object after all the sets
     try:
         res["final_read"] = X.readback(t, obj)
